@@ -24,6 +24,66 @@ structure Norm.Good (N : Norm) : Prop where
   ip_clean : ∀ d, (N.ip6 d = true ∨ N.ip4 d = true) →
     cAt ∉ d ∧ cSlash ∉ d ∧ d ≠ [] ∧ d.length ≤ maxPart
 
+/-- What is assumed of the libraries for the *code* (round E): `Norm.Good` without the
+idempotence of `UsernameCaseMapped`, which is false for golang.org/x/text (NFC composition
+after the case mapping, pairs looked up with both runes truncated to 16 bits:
+U+10041 U+0301 ↦ `Á` ↦ `á`).  The code tests that fixed point itself (`Norm.code`). -/
+structure Norm.Lib (N : Norm) : Prop where
+  nL_ne : ∀ x y, N.nL x = some y → y ≠ []
+  nL_utf8 : ∀ x y, N.nL x = some y → validUtf8 y = true
+  nR_idem : ∀ x y, N.nR x = some y → N.nR y = some y
+  nR_ne : ∀ x y, N.nR x = some y → y ≠ []
+  nR_utf8 : ∀ x y, N.nR x = some y → validUtf8 y = true
+  idna_utf8 : ∀ x y, N.idna x = some y → validUtf8 y = true
+  idna_clean : ∀ x y, N.idna x = some y → cAt ∉ y ∧ cSlash ∉ y
+  ip_clean : ∀ d, (N.ip6 d = true ∨ N.ip4 d = true) →
+    cAt ∉ d ∧ cSlash ∉ d ∧ d ≠ [] ∧ d.length ≤ maxPart
+
+/-- what `stab f` returns is an output of `f` that `f` maps to itself -/
+theorem stab_some {f : Bytes → Option Bytes} {x y : Bytes} (h : stab f x = some y) :
+    f x = some y ∧ f y = some y := by
+  unfold stab at h
+  split at h
+  · rename_i z hz
+    split at h
+    · rename_i hf
+      simp only [Option.some.injEq] at h
+      subst h
+      exact ⟨hz, hf⟩
+    · simp at h
+  · simp at h
+
+/-- `stab f` is idempotent whatever `f` is -/
+theorem stab_idem (f : Bytes → Option Bytes) (x y : Bytes) (h : stab f x = some y) :
+    stab f y = some y := by
+  obtain ⟨_, hy⟩ := stab_some h
+  simp [stab, hy]
+
+/-- on a profile that is idempotent anyway the fixed-point test changes nothing -/
+theorem stab_of_idem {f : Bytes → Option Bytes} (hf : ∀ x y, f x = some y → f y = some y) :
+    stab f = f := by
+  funext x
+  unfold stab
+  cases h : f x with
+  | none => rfl
+  | some y => simp [hf x y h]
+
+/-- **the fixed-point test discharges the idempotence hypothesis**: with the test in the code
+every hypothesis of the canonical-form theorems is one about single library outputs -/
+theorem Norm.code_good {N : Norm} (g : N.Lib) : N.code.Good where
+  nL_idem := fun x y h => stab_idem N.nL x y h
+  nL_ne := fun x y h => g.nL_ne x y (stab_some h).1
+  nL_utf8 := fun x y h => g.nL_utf8 x y (stab_some h).1
+  nR_idem := g.nR_idem
+  nR_ne := g.nR_ne
+  nR_utf8 := g.nR_utf8
+  idna_utf8 := g.idna_utf8
+  idna_clean := g.idna_clean
+  ip_clean := g.ip_clean
+
+theorem Norm.Good.lib {N : Norm} (g : N.Good) : N.Lib :=
+  ⟨g.nL_ne, g.nL_utf8, g.nR_idem, g.nR_ne, g.nR_utf8, g.idna_utf8, g.idna_clean, g.ip_clean⟩
+
 theorem validUtf8_nil : validUtf8 [] = true := by
   unfold validUtf8
   rw [ByteArray.validateUTF8_eq_true_iff]
